@@ -59,6 +59,11 @@ func vxC10Draw(t *rapid.T) *vxC10Case {
 			a = b
 		}
 		k := rapid.IntRange(1, maxTok).Draw(t, "ntok")
+		if i > 0 && rapid.IntRange(0, 7).Draw(t, "tokenless") == 0 {
+			// a node that owns no token (started with join_ring=false: a coordinator only; the driver reads it
+			// from system.local like any other node): it is a host of the ring, and a replica of nothing
+			k = 0
+		}
 		node := vxC10Node{DC: nodeDC, Rack: a}
 		for j := 0; j < k; j++ {
 			r := rapid.IntRange(0, vxRanks-1).Draw(t, "rank")
@@ -114,10 +119,8 @@ func vxC10Run(c *vxC10Case, k *vstats.Case) error {
 	ringDCs := map[string]int{} // dc -> nodes
 	vnodes := false
 	seenRank := map[int]bool{}
+	tokenless := 0
 	for i, n := range c.Nodes {
-		if len(n.Tokens) == 0 {
-			return nil // outside the generated domain (every node owns >= 1 token)
-		}
 		for _, r := range n.Tokens {
 			if r < 0 || r >= vxRanks || seenRank[r] {
 				return nil
@@ -130,7 +133,17 @@ func vxC10Run(c *vxC10Case, k *vstats.Case) error {
 		}
 		hosts[i] = vxMkHost(i, n.DC, n.Rack, c.Part, n.Tokens, NodeUp)
 		byName[vxNodeName(i)] = hosts[i]
+		if len(n.Tokens) == 0 {
+			tokenless++ // Cassandra's placement knows token owners only
+			continue
+		}
 		ringDCs[vxDCName(n.DC)]++
+	}
+	if len(ring) == 0 {
+		return nil // outside the generated domain (at least one node owns a token)
+	}
+	if tokenless > 0 {
+		k.Class("ring has a host without tokens")
 	}
 	tr, err := newTokenRing(vxPartNames[c.Part], hosts)
 	if err != nil {
@@ -185,7 +198,7 @@ func vxC10Run(c *vxC10Case, k *vstats.Case) error {
 			return nil
 		}
 		ks.StrategyOptions["replication_factor"] = vxRFOpt(c.RF, c.RFStr)
-		rfOverDC = c.RF > len(c.Nodes)
+		rfOverDC = c.RF > len(c.Nodes)-tokenless
 	}
 	if vnodes || len(ringDCs) >= 2 || rfOverDC || unknownDC {
 		k.NonTrivial()
@@ -231,8 +244,25 @@ func vxC10Run(c *vxC10Case, k *vstats.Case) error {
 	}
 
 	var rm tokenRingReplicas
-	if msg, p := vxCatch(func() { rm = strat.replicaMap(tr) }); p {
-		return classifyPanic("replicaMap", msg)
+	type rmRes struct {
+		rm  tokenRingReplicas
+		msg string
+		p   bool
+	}
+	rmc := make(chan rmRes, 1)
+	go func() {
+		var r rmRes
+		r.msg, r.p = vxCatch(func() { r.rm = strat.replicaMap(tr) })
+		rmc <- r
+	}()
+	select {
+	case r := <-rmc:
+		if r.p {
+			return classifyPanic("replicaMap", r.msg)
+		}
+		rm = r.rm
+	case <-time.After(20 * time.Second):
+		return fmt.Errorf("replicaMap did not return within 20 s for a ring of %d tokens on %d hosts (%d of them without tokens), keyspace %v rf=%d", len(ring), len(hosts), tokenless, rf, c.RF)
 	}
 	if !sort.IsSorted(rm) {
 		return fmt.Errorf("replica map is not sorted by token: %v", rm)
